@@ -96,6 +96,7 @@ func c01(r *Report) {
 	r.Gate(Gate{ID: "C01.vp.signature", Fn: vp, Effect: ok, Check: ErrCheck(Fn(ver, "signatureVerifier", "VerifyVPSignature"))})
 	r.Gate(Gate{ID: "C01.vp.each-credential", Fn: vp, Effect: ok, ForEach: true, Assume: map[string]bool{"verifyVCs": true}, Check: ErrCheck(Fn(ver, "Verifier", "Verify"))})
 	c01SelfAttested(r, vp)
+	c01Audit3(r, vp)
 	r.Own(OwnSpec{ID: "C01.own.doVerifyVP", Op: "call doVerifyVP", Sites: p.CallSites(Fn(ver, "verifier", "doVerifyVP"), true), Min: 1,
 		Owners: map[string]string{"(vcr/verifier.verifier).VerifyVP": "passes the real verifier"}})
 	// VerifySignature / VerifyVPSignature dispatch: success only via one of the two algorithms
